@@ -361,4 +361,68 @@ theorem I128.toBigIntW_spec (W : Nat) (hW : W = 32 ∨ W = 64) (dest : List Nat)
     · rw [← hv]; exact fb
     · rw [← hv]; exact fn
 
+/-! ## the word-level `FromBigInt` is the value-level one -/
+
+theorem bigVal_natAbs (W : Nat) (neg : Bool) (ws : List Nat) : (bigVal W (neg, ws)).natAbs = wordsVal W ws := by
+  unfold bigVal; cases neg <;> simp
+
+theorem U128.fromBigIntW_eq (W : Nat) (hW : W = 32 ∨ W = 64) (neg : Bool) (ws : List Nat) (hb : BoundedWords W ws)
+    (hn : NormalWords ws) : U128.fromBigIntW W neg ws = U128.fromBigInt (bigVal W (neg, ws)) := by
+  have he := wordsToU128W_eq W hW ws hb hn
+  unfold U128.fromBigIntW U128.fromBigInt
+  rw [bigVal_natAbs, he]
+  cases neg with
+  | false =>
+    have : ¬ (bigVal W (false, ws) < 0) := by unfold bigVal; simp
+    rw [if_neg this]; simp
+  | true =>
+    simp only [if_true]
+    by_cases hz : wordsVal W ws = 0
+    · have : ¬ (bigVal W (true, ws) < 0) := by unfold bigVal; simp [hz]
+      rw [if_neg this, hz]; rfl
+    · have : bigVal W (true, ws) < 0 := by unfold bigVal; simp; omega
+      rw [if_pos this]
+
+theorem I128.fromBigIntW_eq (W : Nat) (hW : W = 32 ∨ W = 64) (neg : Bool) (ws : List Nat) (hb : BoundedWords W ws)
+    (hn : NormalWords ws) : I128.fromBigIntW W neg ws = I128.fromBigInt (bigVal W (neg, ws)) := by
+  have he := wordsToU128W_eq W hW ws hb hn
+  unfold I128.fromBigIntW I128.fromBigInt
+  rw [bigVal_natAbs, he]
+  cases neg with
+  | false =>
+    have : bigVal W (false, ws) ≥ 0 := by unfold bigVal; simp
+    simp only [Bool.not_false, if_true]
+    rw [if_pos this]
+  | true =>
+    simp only [Bool.not_true, Bool.false_eq_true, if_false]
+    by_cases hz : wordsVal W ws = 0
+    · have : bigVal W (true, ws) ≥ 0 := by unfold bigVal; simp [hz]
+      rw [if_pos this, hz]; decide
+    · have : ¬ (bigVal W (true, ws) ≥ 0) := by unfold bigVal; simp; omega
+      rw [if_neg this]
+
+/-! ## contrast: `ToBigInt` without the cut `words = words[:n]` -/
+
+/-- a destination that held three 64-bit words keeps its third word: the result is off by 2^128 for EVERY value -/
+theorem toBigInt_no_cut_64 (u : U128) : wordsVal 64 (toBigIntWordsGen false 64 [0, 0, 1] u) = u.toNat + 2^128 := by
+  unfold toBigIntWordsGen
+  simp [storedWords, storeAll, normWords, wordsVal, U128.toNat]
+  omega
+
+/-- … and with 32-bit words a destination that held five words keeps its fifth -/
+theorem toBigInt_no_cut_32 (u : U128) : wordsVal 32 (toBigIntWordsGen false 32 [0, 0, 0, 0, 1] u) = u.toNat + 2^128 := by
+  obtain ⟨v, _⟩ := storedWords_val 32 (Or.inl rfl) u
+  unfold toBigIntWordsGen
+  have h3264 : ¬ (32 = 64) := by omega
+  simp only [if_neg h3264]
+  have e : storedWords 32 u = [(u.lo &&& 0xFFFFFFFF#64).toNat, (u.lo >>> 32).toNat, (u.hi &&& 0xFFFFFFFF#64).toNat,
+      (u.hi >>> 32).toNat] := by unfold storedWords; rw [if_neg h3264]
+  rw [e] at v
+  rw [e]
+  simp only [storeAll, List.length_cons, List.length_nil, Bool.false_eq_true, if_false, List.set_cons_zero,
+    List.set_cons_succ, Nat.reduceLT, Nat.reduceAdd]
+  rw [wordsVal_normWords]
+  simp only [wordsVal] at v ⊢
+  omega
+
 end Conv
